@@ -1,5 +1,8 @@
 import NmlVerif.Model.Regen
 import NmlVerif.Gen.Regen
+import NmlVerif.Gen.RegenNames
+import NmlVerif.Gen.RegenFresh
+import NmlVerif.Gen.RegenShipped
 import NmlVerif.DrvCommon
 open Lean NmlVerif.Regen Drv
 
@@ -7,7 +10,9 @@ open Lean NmlVerif.Regen Drv
   {"q":"match","cn":{"kind":"str"|"list"|"other","v":…},"cls":"X"}            -> {"r":bool}       (insertionRule on Strings)
   {"q":"regen","specs":[{"name":…,"cn":…,"items":[[name,"digest"],…]}],"cls":…} -> {"items":[[name,"digest"],…]}
   {"q":"table","cls":"X"}   -> what the compiled Gen table says for class X: regenerated / shipped / isClass
-  {"q":"summary"}           -> classes, complexTypes, versions of the compiled Gen table -/
+  {"q":"summary"}           -> classes, complexTypes, versions of the compiled Gen table
+  {"q":"regendiff"}         -> second pass: the whole-file comparison (regenerated vs shipped) and the helper comparison
+                               evaluated by Lean on the compiled tables: which (class, position, names) differ -/
 
 def parseCN (j : Json) : ClassNames String :=
   match getStr j "kind" with
@@ -21,23 +26,54 @@ def parseItem (j : Json) : Item String :=
   | _ => ⟨"?", 0⟩
 
 def parseSpec (j : Json) : Spec String :=
-  ⟨getStr j "name", parseCN (getObj j "cn"), (getArr j "items").toList.map parseItem⟩
+  ⟨getStr j "name", parseCN (getObj j "cn"), (getArr j "items").toList.map parseItem,
+    (getArr j "perClass").toList.map (fun p => (getStr p "cls", (getArr p "items").toList.map parseItem))⟩
 
 def itemJ (it : Item String) : Json := Json.arr #[Json.str it.name, Json.str (toString it.digest)]
 
-def nameOf (i : Nat) : String := (NmlVerif.Gen.Regen.names[i]?).getD ("#" ++ toString i)
-def idOf (s : String) : Option Nat := NmlVerif.Gen.Regen.names.toList.idxOf? s
+def nameOf (i : Nat) : String := (NmlVerif.Gen.RegenNames.names[i]?).getD ("#" ++ toString i)
+def idOf (s : String) : Option Nat := NmlVerif.Gen.RegenNames.names.toList.idxOf? s
 
 def itemsJ (l : List (Item Nat)) : Json := Json.arr (l.map (fun it => itemJ ⟨nameOf it.name, it.digest⟩)).toArray
 def namesJ (l : List Nat) : Json := Json.arr (l.map (fun i => Json.str (nameOf i))).toArray
 def strsJ (l : List String) : Json := Json.arr (l.map Json.str).toArray
 def optsJ (l : List (String × String)) : Json := Json.arr (l.map (fun p => Json.arr #[Json.str p.1, Json.str p.2])).toArray
 
+/-- positionwise differences of two statement lists: (index, expected name or "-", shipped name or "-") -/
+def posDiff : Nat → List (Item Nat) → List (Item Nat) → List Json
+  | _, [], [] => []
+  | i, a :: as, [] => Json.arr #[Json.num i, Json.str (nameOf a.name), Json.str "-"] :: posDiff (i + 1) as []
+  | i, [], b :: bs => Json.arr #[Json.num i, Json.str "-", Json.str (nameOf b.name)] :: posDiff (i + 1) [] bs
+  | i, a :: as, b :: bs =>
+    if a = b then posDiff (i + 1) as bs
+    else Json.arr #[Json.num i, Json.str (nameOf a.name), Json.str (nameOf b.name)] :: posDiff (i + 1) as bs
+
+/-- whole-file comparison evaluated on the compiled tables: one entry per class that differs -/
+def regenDiff (R S : FileTable) : List Json :=
+  let fromS := S.classes.filterMap (fun s =>
+    match R.classes.find? (·.name == s.name) with
+    | none => some (Json.mkObj [("class", Json.str (nameOf s.name)), ("kind", Json.str "class-only-in-bindings")])
+    | some r =>
+      if r = s then none
+      else some (Json.mkObj [("class", Json.str (nameOf s.name)), ("kind", Json.str "differs"),
+        ("bases", Json.bool (r.bases = s.bases)), ("members", Json.arr (posDiff 0 r.members s.members).toArray)]))
+  let fromR := R.classes.filterMap (fun r =>
+    match S.classes.find? (·.name == r.name) with
+    | none => some (Json.mkObj [("class", Json.str (nameOf r.name)), ("kind", Json.str "class-missing-in-bindings")])
+    | some _ => none)
+  fromS ++ fromR
+
+def helperDiff (T : Tables) : List Json :=
+  T.shipped.filterMap (fun c =>
+    let e := regenerated T.specs c.1
+    if e = c.2 then none
+    else some (Json.mkObj [("class", Json.str (nameOf c.1)), ("members", Json.arr (posDiff 0 e c.2).toArray)]))
+
 def handle (j : Json) : Json :=
   let T := NmlVerif.Gen.Regen.tables
   match getStr j "q" with
   | "match" =>
-    let spec : Spec String := ⟨"", parseCN (getObj j "cn"), []⟩
+    let spec : Spec String := ⟨"", parseCN (getObj j "cn"), [], []⟩
     Json.mkObj [("r", Json.bool (insertionRule spec (getStr j "cls")))]
   | "regen" =>
     let specs := (getArr j "specs").toList.map parseSpec
@@ -50,6 +86,19 @@ def handle (j : Json) : Json :=
       Json.mkObj [("isClass", Json.bool (T.classes.contains c)),
         ("regenerated", itemsJ (regenerated T.specs c)),
         ("shipped", match sh with | some l => itemsJ l | none => Json.null)]
+  | "regendiff" =>
+    let R := NmlVerif.Gen.RegenFresh.table
+    let S := NmlVerif.Gen.RegenShipped.table
+    let I := NmlVerif.Gen.RegenFresh.info
+    Json.mkObj [("classes", Json.arr (regenDiff R S).toArray),
+      ("module", Json.arr (posDiff 0 R.moduleItems S.moduleItems).toArray),
+      ("imports", Json.bool (R.imports = S.imports)),
+      ("nclasses", Json.arr #[Json.num R.classes.length, Json.num S.classes.length]),
+      ("nmembers", Json.arr #[Json.num (R.classes.flatMap (·.members)).length, Json.num (S.classes.flatMap (·.members)).length]),
+      ("rawUserIsModel", Json.bool (I.rawUser.all (fun c => c.2 = regenerated T.specs c.1))),
+      ("postprocessing", Json.bool (I.rawUser = I.sedUser && I.sedUser = userRows I.boundary R.classes)),
+      ("drift", Json.arr #[Json.num I.driftRemoved, Json.num I.withBase]),
+      ("helpers", Json.arr (helperDiff T).toArray)]
   | "summary" =>
     let V := T.versions
     Json.mkObj [("classes", namesJ T.classes), ("complexTypes", namesJ T.complexTypes),
